@@ -156,7 +156,27 @@ def run_case(case):
         keyf = {'sorted': lambda p: p, 'reverse': lambda p: [-ord(c) for c in p],
                 'hash': lambda p: hashlib.md5((case['id'] + p).encode()).hexdigest()}[case['order']]
         paths = materialise(top, case['paths'], keyf, case.get('contents'))
-        before = snapshot(top)
+        # symlinked directories: the target lives outside the tree; logically
+        # (for the walk, which follows such links) its content is below the link
+        links = {}
+        for k, (lp, sub) in enumerate(sorted((case.get('links') or {}).items())):
+            ext = os.path.join(base, 'ext%d' % k)
+            sp = materialise(ext, sub['paths'], keyf, sub.get('contents'))
+            os.makedirs(os.path.dirname(os.path.join(top, lp)), exist_ok=True)
+            os.symlink(ext, os.path.join(top, lp))
+            links[lp] = ext
+            paths.update(closure({lp: 'dir'}))
+            for q, kind in sp.items():
+                paths[lp + '/' + q] = kind
+
+        def snap():
+            out = snapshot(top)
+            for lp, ext in links.items():
+                out[lp] = 'dir' if os.path.islink(os.path.join(top, lp)) else 'gone'
+                for q, h in snapshot(ext).items():
+                    out[lp + '/' + q] = h
+            return out
+        before = snap()
         args = []
         pkgs = case.get('root_pkgs') or {}
         extra_env = {}
@@ -175,7 +195,7 @@ def run_case(case):
                 args += [case.get('path_flag', '--path'), full]
         args += case['args']
         res = run_runner(top, args, env_extra=extra_env)
-        after = snapshot(top)
+        after = snap()
         res['paths'] = paths
         res['deleted'] = sorted(p for p in before if p not in after)
         res['changed'] = sorted([p for p in before if p in after and before[p] != after[p]] +
